@@ -13,7 +13,7 @@
 //!   choice point it answered, so an explorer can enumerate all of them.
 
 use std::cell::RefCell;
-use std::collections::HashMap;
+use std::collections::{BTreeMap, HashMap};
 use std::ops::Index;
 
 use chrono::{DateTime, Utc};
@@ -136,40 +136,112 @@ pub struct OrdMap<K, V>(Vec<(K, V)>);
 #[derive(Debug, Clone)]
 pub struct OrdRef<'a, K, V>(Vec<(&'a K, &'a V)>);
 
-/// Take over an owned map at choice point `site`.
-pub fn owned<K: Ord + Clone, V>(
-    map: HashMap<K, V>,
-    site: &'static str,
-) -> OrdMap<K, V> {
-    OrdMap(order(map.into_iter().collect(), site, |e: &(K, V)| {
-        e.0.clone()
-    }))
+/// Collections that can be taken over by value at a choice point. Hash maps
+/// become ordered stand-ins; collections that already have a defined order
+/// pass through unchanged, so that the guarded lines keep compiling when the
+/// surrounding code switches to an ordered collection.
+pub trait TakeOwned {
+    type Out;
+    fn take_owned(self, site: &'static str) -> Self::Out;
 }
 
-/// Take over an owned map of maps; only the inner maps are choice points (the
-/// outer one is iterated in key order when a driver permutes).
-pub fn owned_nested<K: Ord + Clone, K2: Ord + Clone, V>(
-    map: HashMap<K, HashMap<K2, V>>,
-    site: &'static str,
-) -> OrdMap<K, OrdMap<K2, V>> {
-    let mut outer: Vec<(K, HashMap<K2, V>)> = map.into_iter().collect();
-    if DRIVER.with(|d| d.borrow().as_ref().is_some_and(|d| d.permute)) {
-        outer.sort_by(|a, b| a.0.cmp(&b.0));
+impl<K: Ord + Clone, V> TakeOwned for HashMap<K, V> {
+    type Out = OrdMap<K, V>;
+    fn take_owned(self, site: &'static str) -> OrdMap<K, V> {
+        OrdMap(order(self.into_iter().collect(), site, |e: &(K, V)| {
+            e.0.clone()
+        }))
     }
-    OrdMap(
-        outer
-            .into_iter()
-            .map(|(k, inner)| (k, owned(inner, site)))
-            .collect(),
-    )
+}
+
+impl<K, V> TakeOwned for BTreeMap<K, V> {
+    type Out = BTreeMap<K, V>;
+    fn take_owned(self, _site: &'static str) -> Self {
+        self
+    }
+}
+
+impl<T> TakeOwned for Vec<T> {
+    type Out = Vec<T>;
+    fn take_owned(self, _site: &'static str) -> Self {
+        self
+    }
+}
+
+/// Take over an owned map at choice point `site`.
+pub fn owned<M: TakeOwned>(map: M, site: &'static str) -> M::Out {
+    map.take_owned(site)
+}
+
+/// Maps of collections whose inner collections are the choice points (the
+/// outer map is iterated in key order when a driver permutes).
+pub trait TakeNested {
+    type Out;
+    fn take_nested(self, site: &'static str) -> Self::Out;
+}
+
+impl<K: Ord + Clone, M: TakeOwned> TakeNested for HashMap<K, M> {
+    type Out = OrdMap<K, M::Out>;
+    fn take_nested(self, site: &'static str) -> Self::Out {
+        let mut outer: Vec<(K, M)> = self.into_iter().collect();
+        if DRIVER.with(|d| d.borrow().as_ref().is_some_and(|d| d.permute)) {
+            outer.sort_by(|a, b| a.0.cmp(&b.0));
+        }
+        OrdMap(
+            outer
+                .into_iter()
+                .map(|(k, inner)| (k, inner.take_owned(site)))
+                .collect(),
+        )
+    }
+}
+
+impl<K: Ord + Clone, M: TakeOwned> TakeNested for BTreeMap<K, M> {
+    type Out = OrdMap<K, M::Out>;
+    fn take_nested(self, site: &'static str) -> Self::Out {
+        OrdMap(
+            self.into_iter()
+                .map(|(k, inner)| (k, inner.take_owned(site)))
+                .collect(),
+        )
+    }
+}
+
+/// Take over an owned map of maps.
+pub fn owned_nested<M: TakeNested>(map: M, site: &'static str) -> M::Out {
+    map.take_nested(site)
+}
+
+/// Borrowed collections that can be viewed at a choice point.
+pub trait TakeView {
+    type Out;
+    fn take_view(self, site: &'static str) -> Self::Out;
+}
+
+impl<'a, K: Ord, V> TakeView for &'a HashMap<K, V> {
+    type Out = OrdRef<'a, K, V>;
+    fn take_view(self, site: &'static str) -> OrdRef<'a, K, V> {
+        OrdRef(order(self.iter().collect(), site, |e: &(&K, &V)| e.0))
+    }
+}
+
+impl<'a, K: Ord, V> TakeView for &'a BTreeMap<K, V> {
+    type Out = &'a BTreeMap<K, V>;
+    fn take_view(self, _site: &'static str) -> Self::Out {
+        self
+    }
+}
+
+impl<'a, T> TakeView for &'a Vec<T> {
+    type Out = &'a Vec<T>;
+    fn take_view(self, _site: &'static str) -> Self::Out {
+        self
+    }
 }
 
 /// View a borrowed map at choice point `site`.
-pub fn view<'a, K: Ord, V>(
-    map: &'a HashMap<K, V>,
-    site: &'static str,
-) -> OrdRef<'a, K, V> {
-    OrdRef(order(map.iter().collect(), site, |e: &(&K, &V)| e.0))
+pub fn view<M: TakeView>(map: M, site: &'static str) -> M::Out {
+    map.take_view(site)
 }
 
 /// Take over an iterator of directory-enumeration results.
